@@ -49,6 +49,18 @@ type GenSpec struct {
 	Messengers []MsgrSpec          `json:"messengers,omitempty"`
 	Used       []UsedSpec          `json:"used,omitempty"`
 	Ledger     chain.LedgerGenesis `json:"ledger"`
+	// Absent lists optional genesis fields left out ("bm", "sr", "maxbody", "nextnonce", "threshold"):
+	// initialisation then installs the defaults (paused, paused, 8000, 0, 1).
+	Absent []string `json:"absent,omitempty"`
+}
+
+func (g *GenSpec) absent(f string) bool {
+	for _, a := range g.Absent {
+		if a == f {
+			return true
+		}
+	}
+	return false
 }
 
 // ModuleGenesis renders the module part as the module's own GenesisState.
@@ -63,6 +75,21 @@ func (g *GenSpec) ModuleGenesis() *types.GenesisState {
 	gs.SendingAndReceivingMessagesPaused = &types.SendingAndReceivingMessagesPaused{Paused: g.SRPaused}
 	gs.MaxMessageBodySize = &types.MaxMessageBodySize{Amount: g.MaxBody}
 	gs.NextAvailableNonce = &types.Nonce{Nonce: g.NextNonce}
+	if g.absent("bm") {
+		gs.BurningAndMintingPaused = nil
+	}
+	if g.absent("sr") {
+		gs.SendingAndReceivingMessagesPaused = nil
+	}
+	if g.absent("maxbody") {
+		gs.MaxMessageBodySize = nil
+	}
+	if g.absent("nextnonce") {
+		gs.NextAvailableNonce = nil
+	}
+	if g.absent("threshold") {
+		gs.SignatureThreshold = nil
+	}
 	for _, l := range g.Limits {
 		gs.PerMessageBurnLimitList = append(gs.PerMessageBurnLimitList, types.PerMessageBurnLimit{Denom: l.Denom, Amount: Int(Big(l.Amount))})
 	}
@@ -126,6 +153,21 @@ func balKey(addr []byte, denom string) string {
 func NewModel(g *GenSpec) *Model {
 	m := &Model{BM: g.BMPaused, SR: g.SRPaused, MaxBody: g.MaxBody, Next: g.NextNonce, Thr: g.Threshold,
 		Atts: map[string]bool{}, Limits: map[string]*big.Int{}, Pairs: map[string]PairEntry{}, Msgrs: map[uint32][]byte{}, Used: map[UsedSpec]bool{}}
+	if g.absent("bm") {
+		m.BM = true
+	}
+	if g.absent("sr") {
+		m.SR = true
+	}
+	if g.absent("maxbody") {
+		m.MaxBody = 8000
+	}
+	if g.absent("nextnonce") {
+		m.Next = 0
+	}
+	if g.absent("threshold") {
+		m.Thr = 1
+	}
 	for i := 0; i < 4; i++ {
 		m.Roles[i] = Acct(g.Roles[i])
 	}
